@@ -35,6 +35,7 @@ structure Link where
   lat : Nat := 0
   br : Nat := 0
   cap : Option Nat := none      -- queue capacity in messages (`q=<bytes>` / 64)
+  jit : Nat := 0                -- jitter of the channel (ns)
 
 structure St where
   n : Nat                                   -- gate ids are < n (fuel of the walks)
@@ -179,6 +180,7 @@ structure Stats where
   fwdlegs : Nat := 0      -- delivered legs of forwarded messages (second and later legs)
   restamped : Nat := 0    -- deliveries whose header held a different, stale receiver id before
   wantsfwd : Nat := 0     -- sends with forwarding legs or an explicit receiver id
+  jittered : Nat := 0     -- messages that crossed a hop with jitter (arrival checked against the jitter window)
   bursts : Nat := 0       -- bursts (>= 2 messages back to back)
   queuedInner : Nat := 0  -- burst messages that had to wait for a channel on a hop entered at a transit gate
   qdropped : Nat := 0     -- burst messages dropped by a full queue
@@ -283,7 +285,7 @@ def runCase (c : Case) : String := Id.run do
           s := { s with links := s.links + 1 }
           if br > 0 then s := { s with brlinks := s.brlinks + 1 }
           if sp'.rings.length != st.sp.rings.length then s := { s with rings := s.rings + 1 }
-          st := { st with links := { a := a, b := b, delay := ch, lat := lat, br := br, cap := (kvNat rest "q").map (· / 64) } :: st.links }
+          st := { st with links := { a := a, b := b, delay := ch, lat := lat, br := br, cap := (kvNat rest "q").map (· / 64), jit := (kvNat rest "jit").getD 0 } :: st.links }
         else if exp == .noop then s := { s with noops := s.noops + 1 }
         else s := { s with panics := s.panics + 1 }
         st := { st with net := net', sp := sp' }
@@ -385,6 +387,28 @@ def runCase (c : Case) : String := Id.run do
             hi := hi + 1
           if hops.any (·.tx > 0) then s := { s with brsends := s.brsends + 1 }
           continue
+        -- a route with jitter: the arrival time is only determined up to the sum of the jitters
+        -- (window acceptance on the specification side; the model has no random samples and is not compared)
+        if legs.isEmpty then
+          let route := specRoute st buildSp (st.n + 1) g0 none (at0 + delay0)
+          let jsum := (((route.zip route.tail).filterMap fun p => st.link? p.1 p.2).map (·.jit)).sum
+          if jsum > 0 then
+            match specFate st buildSp g0 at0 delay0 with
+            | .delivered rx lo sender last =>
+              let want := s!"n=1 rx={mname rx} t={lo}..{lo + jsum} sender={mname sender} receiver={mname rx} last={gname last}"
+              let it := words impl
+              let okFields := it.head? == some "n=1" && kv it "rx" == some (mname rx) && kv it "sender" == some (mname sender)
+                && kv it "receiver" == some (mname rx) && kv it "last" == some (gname last) && it.length == 6
+              let okTime := match kvNat it "t" with
+                | some t => lo ≤ t && t ≤ lo + jsum
+                | none => false
+              if !(okFields && okTime) then
+                return s!"fail {id} op={i} kind=reject line=[{lhs}] spec=[{want}] model=[not-compared-jitter] impl=[{impl}]"
+              s := { s with jittered := s.jittered + 1 }
+              if route.length ≥ 3 then s := { s with multihopSends := s.multihopSends + 1 }
+              s := { s with maxhops := max s.maxhops (route.length - 1), brsends := s.brsends + 1 }
+              continue
+            | _ => pure ()
         if !legs.isEmpty || rcv.isSome then s := { s with wantsfwd := s.wantsfwd + 1 }
         -- model: every leg through `sendH`, the header handed from leg to leg
         let mut segsM : List String := []
@@ -488,7 +512,7 @@ def runCase (c : Case) : String := Id.run do
   -- (and >= 2 modules owning gates) >= 1 delivery of a message whose header held a different (stale) receiver id
   let nt := s.maxhops ≥ 3 && s.multihopSends ≥ 1 && s.links ≥ 3 && (st.down.isEmpty || s.drops + s.unseen ≥ 1)
     && (s.brlinks == 0 || s.brsends ≥ 1) && (s.late == 0 || s.unwired ≥ 1) && (s.bursts == 0 || s.queuedInner ≥ 1) && (s.wantsfwd == 0 || s.restamped ≥ 1 || (st.owner.map (·.2)).eraseDups.length ≤ 1)
-  return s!"ok {id} nt={if nt then 1 else 0} ops={i} links={s.links} noops={s.noops} panics={s.panics} rings={s.rings} walks={s.walks} sends={s.sends} multihop={s.multihopSends} delayed={s.delayed} maxhops={s.maxhops} downmods={st.down.length} drops={s.drops} unseen={s.unseen} senderdown={s.senderdown} late={s.late} unwired={s.unwired} brlinks={s.brlinks} brsends={s.brsends} zerolat={s.zerolat} fwdlegs={s.fwdlegs} restamped={s.restamped} wantsfwd={s.wantsfwd} bursts={s.bursts} queuedinner={s.queuedInner} qdropped={s.qdropped}"
+  return s!"ok {id} nt={if nt then 1 else 0} ops={i} links={s.links} noops={s.noops} panics={s.panics} rings={s.rings} walks={s.walks} sends={s.sends} multihop={s.multihopSends} delayed={s.delayed} maxhops={s.maxhops} downmods={st.down.length} drops={s.drops} unseen={s.unseen} senderdown={s.senderdown} late={s.late} unwired={s.unwired} brlinks={s.brlinks} brsends={s.brsends} zerolat={s.zerolat} fwdlegs={s.fwdlegs} restamped={s.restamped} wantsfwd={s.wantsfwd} jittered={s.jittered} bursts={s.bursts} queuedinner={s.queuedInner} qdropped={s.qdropped}"
 
 def main (stdin : IO.FS.Stream) : IO Unit := do
   let cases ← readCases stdin
